@@ -1,6 +1,7 @@
 package c19
 
 import (
+	"path"
 	"context"
 	"fmt"
 	"os"
@@ -87,7 +88,7 @@ func checkEngine(c EngCase) (ExOutcome, error) {
 		qp = append(qp, q)
 		qualified = append(qualified, q.String())
 	}
-	absent, unspecified, _ := reference([]gm.Schema{toGM(c.A)}, qp)
+	absent, unspecified, wantErr := reference([]gm.Schema{toGM(c.A)}, qp)
 	compare := func(what string, got map[string]bool) error {
 		var problems []string
 		for k := range before {
@@ -110,6 +111,13 @@ func checkEngine(c EngCase) (ExOutcome, error) {
 		return nil
 	}
 	r1, err := db.Client.InspectRealm(ctx, &schema.InspectRealmOption{Exclude: qualified})
+	if wantErr || err != nil && unspecified["error"] {
+		_, err2 := db.Client.InspectSchema(ctx, "main", &schema.InspectOptions{Exclude: rel})
+		if wantErr && (err == nil || err2 == nil) {
+			return out, fmt.Errorf("Exclude %q holds a malformed glob that is applied to a name, but inspection returns no error (InspectRealm: %v, InspectSchema: %v; InspectRealm result: %d of %d resources left)", rel, err, err2, len(inventory(r1)), len(before))
+		}
+		return out, nil
+	}
 	if err != nil {
 		return out, fmt.Errorf("InspectRealm(Exclude=%q): %v", qualified, err)
 	}
@@ -296,6 +304,30 @@ func checkCLI(c EngCase) (ExOutcome, error) {
 		args = append(args, "--env", "x", "-c", "file://atlas.hcl")
 	}
 	r := sb.Run(args...)
+	// a malformed glob: the command must fail when the glob meets a name no pattern removes, and may fail otherwise
+	malformed := false
+	for _, p := range c.Patterns {
+		for _, x := range p {
+			if _, err := path.Match(x.Glob, ""); err != nil {
+				malformed = true
+			}
+		}
+	}
+	if malformed {
+		var qp []Pattern
+		for _, p := range c.Patterns {
+			qp = append(qp, append(Pattern{{Glob: "main"}}, p...))
+		}
+		_, _, wantA := reference([]gm.Schema{toGM(c.A)}, qp)
+		_, _, wantB := reference([]gm.Schema{toGM(c.B)}, qp)
+		refused := r.Code != 0 && strings.Contains(r.Stderr, "syntax error in pattern")
+		if (wantA || wantB) && !refused {
+			return out, fmt.Errorf("--exclude holds a malformed glob that is applied to a name, but the command does not fail with a pattern error: %v", r)
+		}
+		if refused {
+			return out, nil
+		}
+	}
 	if r.Code != 0 {
 		return out, fmt.Errorf("schema apply failed: %v", r)
 	}
